@@ -236,6 +236,11 @@ func loadEngine(repo string) (*Engine, error) {
 		}
 		if t, ok := e.targets[key]; ok {
 			t.spec = fs
+		} else if e.isFuncVar(key) {
+			fs.Trusted = true
+			if fs.TrustWhy == "" {
+				fs.TrustWhy = "function value built from parser combinators"
+			}
 		} else if !e.isInterfaceContract(key) {
 			return nil, fmt.Errorf("%s:%d: contract for %s does not match any function in /repo", fs.File, fs.Line, key)
 		}
@@ -823,6 +828,23 @@ func (e *Engine) isRepoPkg(path string) bool {
 	for _, p := range e.pkgs {
 		if p.PkgPath == path {
 			return true
+		}
+	}
+	return false
+}
+
+// isFuncVar reports whether key names a package-level variable of function type.
+func (e *Engine) isFuncVar(key string) bool {
+	parts := strings.Split(key, ".")
+	if len(parts) != 2 {
+		return false
+	}
+	for _, p := range e.pkgs {
+		if p.Name == parts[0] {
+			if v, ok := p.Types.Scope().Lookup(parts[1]).(*types.Var); ok {
+				_, isFn := v.Type().Underlying().(*types.Signature)
+				return isFn
+			}
 		}
 	}
 	return false
